@@ -14,3 +14,5 @@ import SpoxModel.Props.C04
 #print axioms C04.claimed_twice_rejected
 #print axioms C04.multiple_owner_rejected
 #print axioms C04.double_introduction_rejected
+#print axioms C04.least_enclosing
+#print axioms C04.scope_defined
